@@ -249,7 +249,8 @@ void explore08(Options const& o, std::vector<Shim*> const& shims, std::vector<Sh
                           {U_SQRT_ABACUS,0,D,false}, {U_SQRT_STD,0,D,false}, {U_FLOOR,-D,D,false}, {U_CEIL,-D,D,false}, {U_SQRT_APROX,0,D,false}, {U_ATAN_INDEX_APROX,-D,D,false},
                           {U_SIN_ANGLE_FX,-D,D,false}, {U_TAN_ANGLE_FX,-D,D,false} };
   static const char* UN[U_COUNT] = { "operator- (unary)", "abs", "isnan", "floor", "ceil", "sin", "cos", "tan", "atan", "asin", "acos", "sqrt", "detail::sqrt_abacus", "detail::sqrt_std_math",
-                                      "sqrt_aprox", "atan_index_aprox", "atan_aprox", "sin_angle(fixed_t)", "cos_angle(fixed_t)", "tan_angle(fixed_t)" };
+                                      "sqrt_aprox", "atan_index_aprox", "atan_aprox", "sin_angle(fixed_t)", "cos_angle(fixed_t)", "tan_angle(fixed_t)",
+                                      "x += x (same object)", "x -= x (same object)", "x *= x (same object)", "x /= x (same object)" };
   for( auto& w : wins )
     {
     int c = rec.cls("C08.config_dependent_result." + sanitize_cls(UN[w.op]));
@@ -270,6 +271,68 @@ void explore08(Options const& o, std::vector<Shim*> const& shims, std::vector<Sh
       });
     rec.add_states(total * shims.size(), total * shims.size(), total * (shims.size() - 1));
     }
+  }
+  // (1b) the same entry point with compile-time-constant arguments (visible to the optimiser, __builtin_constant_p, constant
+  //      folding) must return what it returns for an opaque argument in the SAME configuration
+  {
+  static const char* UN2[U_COUNT] = { "operator- (unary)", "abs", "isnan", "floor", "ceil", "sin", "cos", "tan", "atan", "asin", "acos", "sqrt", "detail::sqrt_abacus", "detail::sqrt_std_math",
+                                      "sqrt_aprox", "atan_index_aprox", "atan_aprox", "sin_angle(fixed_t)", "cos_angle(fixed_t)", "tan_angle(fixed_t)",
+                                      "x += x (same object)", "x -= x (same object)", "x *= x (same object)", "x /= x (same object)" };
+  u64 n = 0;
+  for( size_t ci = 0; ci < shims.size(); ++ci )
+    {
+    Shim* s = shims[ci]; LocalViol lv(rec);
+    int n1 = s->fm_constarg_count(0), n2 = s->fm_constarg_count(1);
+    for( int op = 0; op < U_COUNT; ++op ) for( int ki = 0; ki < n1; ++ki )
+      {
+      i64 k = s->fm_constarg_value(0, ki); i64 a = 0, b = 0; int sg = guarded([&]{ a = s->fm_un_constarg(op, ki); b = s->fm_un(op, k); }); ++n;
+      if( sg || a != b ) lv.hit(rec.cls(std::string("C08.constant_argument_result_differs.") + sanitize_cls(UN2[op])), (static_cast<u64>(ci) << 56) | (static_cast<u64>(op) << 16) | static_cast<u64>(ki), [=]{ Example e; e.entry = UN2[op]; e.cfg = s->name; e.shape = "argument is a compile-time constant";
+          e.inputs = {{"x", to_s(k)}}; e.expected = to_s(b) + " (same call with an opaque argument)"; e.got = sg ? "signal" : to_s(a); e.rcase = "constarg"; e.rin = { "0", to_s(op), to_s(ki), "0" }; return e; });
+      }
+    for( int op = 0; op < B_COUNT; ++op ) for( int ki = 0; ki < n2; ++ki ) for( int kj = 0; kj < n2; ++kj )
+      {
+      i64 k1 = s->fm_constarg_value(1, ki), k2 = s->fm_constarg_value(1, kj); i64 a = 0, b = 0; int sg = guarded([&]{ a = s->fm_bin_constarg(op, ki, kj); b = s->fm_bin(op, k1, k2); }); ++n;
+      if( sg || a != b ) lv.hit(rec.cls("C08.constant_argument_result_differs.binary_op_" + std::to_string(op)), (static_cast<u64>(ci) << 56) | (1ull << 40) | (static_cast<u64>(op) << 16) | static_cast<u64>(ki * 16 + kj), [=]{ Example e; e.entry = "binary op #" + std::to_string(op); e.cfg = s->name; e.shape = "both arguments are compile-time constants";
+          e.inputs = {{"a", to_s(k1)}, {"b", to_s(k2)}}; e.expected = to_s(b) + " (same call with opaque arguments)"; e.got = sg ? "signal" : to_s(a); e.rcase = "constarg"; e.rin = { "1", to_s(op), to_s(ki), to_s(kj) }; return e; });
+      }
+    }
+  rec.add_states(n, 2 * n, n); rec.count("constant_argument_states", n);
+  }
+  // (1c) comparisons of a fresh result against constants in the same inlined scope as the call must agree with the returned value
+  {
+  std::vector<i64> X = S_set(th ? 6 : 5, 2, true);
+  std::vector<i64> P = S_set(2, 1, true);
+  u64 n = 0;
+  for( size_t ci = 0; ci < shims.size(); ++ci )
+    {
+    Shim* s = shims[ci];
+    int c_m = rec.cls("C08.in_scope_comparison_of_result_wrong");
+    for( int op = 0; op < U_COUNT; ++op )
+      {
+      if( op == U_SQRT_STD || op == U_SQRT_ABACUS ) continue;
+      const size_t B = 2048; size_t nb = (X.size() + B - 1) / B;
+      parallel_blocks(nb, o.threads, [&](size_t blk, int) {
+        LocalViol lv(rec);
+        for( size_t i = blk * B; i < std::min(X.size(), (blk + 1) * B); ++i )
+          { i64 x = X[i]; i64 r = 0; u64 got = 0; int sg = guarded([&]{ r = s->fm_un(op, x); got = s->fm_un_cmpmask(op, x); }); u64 e = expected_cmpmask(s, r);
+            if( sg || got != e ) lv.hit(c_m, (static_cast<u64>(ci) << 56) | (static_cast<u64>(op) << 40) | i, [=]{ Example ex; ex.entry = "unary op #" + std::to_string(op); ex.cfg = s->name; ex.shape = "comparisons in the scope of the call"; ex.inputs = {{"x", to_s(x)}};
+                ex.expected = "mask " + hex(e) + " (from the returned value " + to_s(r) + ")"; ex.got = "mask " + hex(got); ex.rcase = "mask"; ex.rin = { "0", to_s(op), to_s(x), "0" }; return ex; }); }
+        });
+      n += X.size();
+      }
+    for( int op = 0; op < B_COUNT; ++op )
+      {
+      parallel_blocks(P.size(), o.threads, [&](size_t ia, int) {
+        LocalViol lv(rec);
+        for( size_t ib = 0; ib < P.size(); ++ib )
+          { i64 a = P[ia], b = P[ib]; i64 r = 0; u64 got = 0; int sg = guarded([&]{ r = s->fm_bin(op, a, b); got = s->fm_bin_cmpmask(op, a, b); }); u64 e = expected_cmpmask(s, r);
+            if( sg || got != e ) lv.hit(c_m, (static_cast<u64>(ci) << 56) | (1ull << 50) | (static_cast<u64>(op) << 40) | (ia * P.size() + ib), [=]{ Example ex; ex.entry = "binary op #" + std::to_string(op); ex.cfg = s->name; ex.shape = "comparisons in the scope of the call";
+                ex.inputs = {{"a", to_s(a)}, {"b", to_s(b)}}; ex.expected = "mask " + hex(e) + " (from the returned value " + to_s(r) + ")"; ex.got = "mask " + hex(got); ex.rcase = "mask"; ex.rin = { "1", to_s(op), to_s(a), to_s(b) }; return ex; }); }
+        });
+      n += static_cast<u64>(P.size()) * P.size();
+      }
+    }
+  rec.add_states(n, 2 * n, n); rec.count("in_scope_comparison_states", n);
   }
   // (3) the two square-root algorithms never differ by more than one ulp
   {
@@ -305,6 +368,17 @@ void replay08(Options const& o, Shim* s, Recorder& rec)
   if( o.rcase == "sqrt2" )
     { i64 x = parse_i64(o.rin.at(0)); i64 a = s->fm_un(U_SQRT_ABACUS, x), d = s->fm_un(U_SQRT_STD, x); i64 df = a > d ? a - d : d - a;
       if( df > 1 ) rec.viol(rec.cls("C08.sqrt_algorithms_differ_by_more_than_1ulp"), 0, [&]{ Example e; e.entry = "sqrt_abacus vs sqrt_std_math"; e.cfg = o.rcfg; e.inputs = {{"x", to_s(x)}}; e.expected = "differ by at most 1"; e.got = to_s(a) + " vs " + to_s(d); e.rcase = o.rcase; e.rin = o.rin; return e; });
+      return; }
+  if( o.rcase == "constarg" )
+    { int bin = static_cast<int>(parse_i64(o.rin.at(0))), op = static_cast<int>(parse_i64(o.rin.at(1))), ki = static_cast<int>(parse_i64(o.rin.at(2))), kj = static_cast<int>(parse_i64(o.rin.at(3)));
+      i64 a = 0, b = 0; int sg = guarded([&]{ if( bin ) { a = s->fm_bin_constarg(op, ki, kj); b = s->fm_bin(op, s->fm_constarg_value(1, ki), s->fm_constarg_value(1, kj)); } else { a = s->fm_un_constarg(op, ki); b = s->fm_un(op, s->fm_constarg_value(0, ki)); } });
+      if( sg || a != b ) rec.viol(rec.cls("C08.constant_argument_result_differs.replay"), 0, [&]{ Example e; e.entry = "constant-argument instantiation"; e.cfg = o.rcfg; e.expected = to_s(b); e.got = to_s(a); e.rcase = o.rcase; e.rin = o.rin; return e; });
+      return; }
+  if( o.rcase == "mask" )
+    { int bin = static_cast<int>(parse_i64(o.rin.at(0))), op = static_cast<int>(parse_i64(o.rin.at(1))); i64 a = parse_i64(o.rin.at(2)), b = parse_i64(o.rin.at(3));
+      i64 r = 0; u64 got = 0; int sg = guarded([&]{ if( bin ) { r = s->fm_bin(op, a, b); got = s->fm_bin_cmpmask(op, a, b); } else { r = s->fm_un(op, a); got = s->fm_un_cmpmask(op, a); } });
+      u64 e = expected_cmpmask(s, r);
+      if( sg || got != e ) rec.viol(rec.cls("C08.in_scope_comparison_of_result_wrong"), 0, [&]{ Example ex; ex.entry = "in-scope comparisons"; ex.cfg = o.rcfg; ex.expected = hex(e); ex.got = hex(got); ex.rcase = o.rcase; ex.rin = o.rin; return ex; });
       return; }
   Shim* rf = load_shim(o.shim_dir, o.rin.at(3));
   std::vector<Entry> cat = build_catalog(0, false);
